@@ -232,7 +232,7 @@ def main():
         fmsgs = [list(b"Subject: f\n\n" + b"".join(b"line %04d of the body, with a dot line next\n.\n..x\n" % i for i in range(60))),
                  list(b"a\r\nb\n" * 700), [120] * 1023 + [10] + [46, 10] * 600]
         if thorough:
-            fmsgs += randoms[:6]
+            fmsgs += [m for m in randoms if len(m) < 1200][:3]
         frecs = fault_records(ck, tree, fmsgs)
         recs += frecs
         ck.cov["runs_with_one_failing_call"] = len(frecs)
@@ -246,7 +246,7 @@ def main():
     # ---- 3. TLC judges every record
     recfile = ck.scratch.path("c06.ndjson")
     write_ndjson(recfile, [{"i": r["i"], "o": r["o"], "r": r["r"]} for r in recs])
-    bad, vres = tlc_validate_records("RemoteBlastRec", "RemoteBlastRec.cfg", recfile, len(recs), chunk=300)
+    bad, vres = tlc_validate_records("RemoteBlastRec", "RemoteBlastRec.cfg", recfile, len(recs), chunk=300, timeout=3000)
     ck.add_tlc("RemoteBlastRec", vres)
     ck.cov["traces_validated_against_impl"] = len(recs)
     for r in recs:
